@@ -125,6 +125,7 @@ def check(rep, c, cfg):
     # mutators: exactly the increment
     inc_fns = []
     inline_incs = {}
+    func_inc_hosts = set()
     for p, ms in muts.items():
         fn = c.fn(p)
         r.instance("mut:" + p, where(ms[0][0]), "mutable access to the counter field (%s)" % ms[0][1])
@@ -132,6 +133,7 @@ def check(rep, c, cfg):
             fi = [functional_increment(pn) for (x, how, pn) in ms]
             if all(fi) and len(set(fi)) == 1 and len(ms) == 1:
                 inc_fns.append(fi[0])
+                func_inc_hosts.add(p)
                 continue
             # the increment written in place (`if let Some((current, _)) = &mut self.call_tracker.current_call_limit {
             # *current += 1 }` in the one function that counts a call): the only mutable access is the borrow that binds
@@ -215,6 +217,20 @@ def check(rep, c, cfg):
             r.violation("reached:cmp", where(n), "limit test is `%s`, not `current >= limit`: with `>`/`==` a "
                         "counter can pass the limit (or step over it) and the tracker stops reporting reached"
                         % hirq.expr_text(n))
+    # readers of the counter itself: the limit predicate, the increment and the constructor - nothing else.  A second
+    # reader (`remaining()`, a budget test in a combinator) lets a decision other than "refuse" depend on the count: the
+    # parse then differs from the unlimited one without the tracker ever saying `reached`
+    allowed_readers = set([reached["path"], inc_fn]) | set(ctors) | set(func_incs) | func_inc_hosts
+    for b in c.bodies:
+        if b.get("body") is None or b.get("exp") or "::tests::" in str(b.get("path", "")) or b["path"] in allowed_readers:
+            continue
+        reads = [x for x in walk(b["body"]) if kind(x) == "Field" and x["name"] == field and "CallLimitTracker" in str(x.get("bty", ""))]
+        if reads:
+            r.instance("counter-reader:" + b["path"], where(reads[0]))
+            r.violation("counter-reader:" + b["path"], where(reads[0]),
+                        "%s reads the call counter: only the limit predicate, the increment and the constructor may - a "
+                        "decision taken on the remaining budget (other than refusing the call) changes the result while the "
+                        "tracker does not report the limit as reached" % b["path"].split("::")[-1])
     # readers: who calls reached / increment
     cg = hirq.CallGraph([c])
     callers_reached = sorted(set(p for (p, n) in cg.callers_of(reached["path"])))
